@@ -13,6 +13,8 @@ Section node_ind2.
   Hypothesis Hln : forall a, P (LinkNone a).
   Hypothesis Hfifo : forall a, P (Fifo a).
   Hypothesis Hsock : forall a, P (Sock a).
+  Hypothesis Hlo : forall a t, P (LinkOther a t).
+  Hypothesis Hnp : forall a, P (NoPerm a).
   Fixpoint node_ind2 (n : node) : P n :=
     let go := fix go (l : list node) : Forall P l :=
       match l with
@@ -27,6 +29,8 @@ Section node_ind2.
     | LinkNone a => Hln a
     | Fifo a => Hfifo a
     | Sock a => Hsock a
+    | LinkOther a t => Hlo a t
+    | NoPerm a => Hnp a
     end.
 End node_ind2.
 
@@ -346,7 +350,7 @@ Proof.
   induction n using node_ind2; intros f rem Hh Hok;
     try (cbn [walk_entry node_name sort_tree files_of paths_ok] in *;
          unfold stat_at; rewrite andb_true_r in Hok; apply negb_true_iff in Hok; rewrite Hok;
-         reflexivity).
+         try match goal with t : okind |- _ => destruct t end; reflexivity).
   rewrite walk_entry_dir, sort_tree_dir. cbn [files_of].
   cbn [paths_ok node_name] in Hok. apply andb_prop in Hok as [Hp Hch]. apply negb_true_iff in Hp.
   rewrite height_dir in Hh.
@@ -419,7 +423,7 @@ Proof.
   induction args as [|a args IH]; intros H; [split; reflexivity|].
   cbn [forallb] in H. apply andb_prop in H as [Ha Hr]. destruct (IH Hr) as [IH1 IH2].
   cbn [main_loop flat_map]. unfold arg_ok in Ha. unfold arg_files at 1.
-  destruct (resolve fs a) as [c|ch| | |] eqn:E; try discriminate.
+  destruct (resolve fs a) as [c|ch| | | | |] eqn:E; try discriminate.
   - cbn [inspect_file]. rewrite seq_none. cbn [fst snd]. split; [assumption|].
     rewrite map_app, reports_app, IH2. reflexivity.
   - apply andb_prop in Ha as [Hh Hp]. apply Z.leb_le in Hh.
@@ -501,6 +505,20 @@ Section Out.
     rewrite H1. cbn [fst]. rewrite stdout_of_reports, H2. apply stdout_of_pairs.
   Qed.
 End Out.
+
+(* one directory: standard output is the concatenation of the single-file reports over the
+   sorted depth-first enumeration *)
+Lemma scan_one_directory_stdout : forall body argv0 fs d ch stdin,
+  plain_arg d = true -> resolve fs d = SDir ch ->
+  (Z.of_nat (height_in ch) <= max_depth)%Z -> paths_ok_in ch d = true ->
+  stdout_of body argv0 (fst (main_run repaired fs [bs "-r"; d] stdin))
+  = concat (map (report_text body) (dfs_sorted_regular_files ch d)).
+Proof.
+  intros body argv0 fs d ch stdin Hd Hr Hh Hp.
+  rewrite scan_stdout; [|assumption|].
+  - cbn [flat_map]. unfold arg_files. rewrite Hr. now rewrite app_nil_r.
+  - cbn [forallb]. unfold arg_ok. rewrite Hr, Hp. apply Z.leb_le in Hh. rewrite Hh. reflexivity.
+Qed.
 
 (* ---------- refusals ---------- *)
 (* arguments that are regular files are reported, then the first directory without -r
@@ -606,6 +624,89 @@ Proof.
   apply dispatch_body_neutral; [apply stdin_path_neutral|assumption].
 Qed.
 
+(* ---------- standard input as a stream of chunks ---------- *)
+Lemma take_n_0 : forall l, take_n 0 l = [].
+Proof. destruct l; reflexivity. Qed.
+
+Lemma take_n_firstn : forall l n, take_n n l = firstn (N.to_nat n) l.
+Proof.
+  induction l as [|x l IH]; intros n; cbn [take_n]; [now rewrite firstn_nil|].
+  destruct (n =? 0) eqn:E.
+  - apply N.eqb_eq in E. subst. reflexivity.
+  - apply N.eqb_neq in E. replace (N.to_nat n) with (S (N.to_nat (n - 1))) by lia.
+    cbn [firstn]. now rewrite IH.
+Qed.
+
+Lemma take_n_all : forall l n, N.of_nat (length l) <= n -> take_n n l = l.
+Proof. intros l n H. rewrite take_n_firstn. apply firstn_all2. lia. Qed.
+
+Lemma take_n_app : forall a b n,
+  take_n n (a ++ b) = take_n n a ++ take_n (n - N.of_nat (length (take_n n a))) b.
+Proof.
+  induction a as [|x a IH]; intros b n.
+  - cbn [app take_n length]. now rewrite N.sub_0_r.
+  - cbn [app take_n]. destruct (n =? 0) eqn:E.
+    + apply N.eqb_eq in E. subst. cbn [length app]. now rewrite take_n_0.
+    + apply N.eqb_neq in E. cbn [app length]. rewrite IH. do 3 f_equal. lia.
+Qed.
+
+(* the read loop delivers the first [cap] bytes of the concatenation of the chunks, wherever the
+   chunks end, empty chunks included *)
+Lemma read_all_concat : forall chunks cap, read_all cap chunks = take_n cap (concat chunks).
+Proof.
+  induction chunks as [|c rest IH]; intros cap; [reflexivity|].
+  cbn [read_all concat]. destruct (cap =? 0) eqn:E.
+  - apply N.eqb_eq in E. subst. now rewrite take_n_0.
+  - rewrite take_n_app, IH. reflexivity.
+Qed.
+
+Lemma read_all_whole : forall chunks cap,
+  N.of_nat (length (concat chunks)) <= cap -> read_all cap chunks = concat chunks.
+Proof. intros. rewrite read_all_concat. now apply take_n_all. Qed.
+
+Lemma cut_at_concat : forall lens data, concat (cut_at lens data) = data.
+Proof.
+  induction lens as [|n lens IH]; intros data.
+  - destruct data; cbn; [reflexivity|now rewrite app_nil_r].
+  - cbn [cut_at concat]. rewrite IH. apply firstn_skipn.
+Qed.
+
+Lemma stream_is_bytes : forall q fs argv chunks,
+  main_run_stream q fs argv chunks = main_run q fs argv (take_n max_read_size (concat chunks)).
+Proof. intros. unfold main_run_stream. now rewrite read_all_concat. Qed.
+
+Lemma stream_chunking_irrelevant : forall q fs argv c1 c2,
+  concat c1 = concat c2 -> main_run_stream q fs argv c1 = main_run_stream q fs argv c2.
+Proof. intros q fs argv c1 c2 H. now rewrite !stream_is_bytes, H. Qed.
+
+(* standard input delivered in any chunks is described like a file that holds their concatenation *)
+Lemma stream_as_file : forall sniff parse argv0 q fs fs' r rest p chunks stdin',
+  match rest with [] => True | a :: _ => a = [] \/ a = [45] end ->
+  plain_arg p = true -> name_neutral p = true -> resolve fs' p = SReg (concat chunks) ->
+  N.of_nat (length (concat chunks)) <= max_read_size ->
+  stdout_of (dispatch_body sniff parse) argv0 (fst (main_run_stream q fs (argv_of r rest) chunks))
+  = drop (length p + 2) (stdout_of (dispatch_body sniff parse) argv0 (fst (main_run q fs' [p] stdin'))).
+Proof.
+  intros sniff parse argv0 q fs fs' r rest p chunks stdin' Hrest Hp Hn Hr Hlen.
+  unfold main_run_stream. rewrite read_all_whole by assumption.
+  now apply stdin_as_file.
+Qed.
+
+(* chunks with empty reads and ends inside a token; a reader that stops at a short read differs *)
+Definition example_chunks : list bytes :=
+  [bs "123e4567-e89b-12d3-"; []; bs "a456-4266"; []; []; bs "14174000"; [10]; []].
+
+Lemma example_chunks_read :
+  read_all max_read_size example_chunks = bs "123e4567-e89b-12d3-a456-426614174000" ++ [10] /\
+  read_all 10 example_chunks = bs "123e4567-e" /\
+  read_until_short 4096 example_chunks = bs "123e4567-e89b-12d3-".
+Proof. vm_compute. repeat split; reflexivity. Qed.
+
+Lemma short_read_reader_refuted : exists chunks,
+  N.of_nat (length (concat chunks)) <= max_read_size /\
+  read_all max_read_size chunks = concat chunks /\ read_until_short 4096 chunks <> concat chunks.
+Proof. exists example_chunks. vm_compute. repeat split; congruence. Qed.
+
 (* ---------- bad entries ---------- *)
 (* the repaired code never dereferences a nil file, and only blocks on a FIFO that was
    named explicitly as an argument *)
@@ -616,7 +717,7 @@ Lemma main_loop_status : forall fs r args s, snd (main_loop repaired fs r args) 
   s = Exit 1 \/ exists p, In p args /\ resolve fs p = SFifo /\ s = Blocked p.
 Proof.
   induction args as [|a args IH]; intros s H; cbn [main_loop] in H; [discriminate|].
-  destruct (resolve fs a) as [c|ch| | |] eqn:E.
+  destruct (resolve fs a) as [c|ch| | | | |] eqn:E.
   - cbn [inspect_file] in H. rewrite seq_none in H. cbn [snd] in H.
     destruct (IH s H) as [->|[p [Hin [Hr Hs]]]]; [now left|]. right. exists p. split; [now right|auto].
   - destruct r.
@@ -629,6 +730,10 @@ Proof.
   - cbn [inspect_file repaired q_nil_after_open] in H. rewrite seq_none in H. cbn [snd] in H.
     destruct (IH s H) as [->|[p [Hin [Hr Hs]]]]; [now left|]. right. exists p. split; [now right|auto].
   - cbn in H. inversion H. now left.
+  - cbn [inspect_file] in H. rewrite seq_none in H. cbn [snd] in H.
+    destruct (IH s H) as [->|[p [Hin [Hr Hs]]]]; [now left|]. right. exists p. split; [now right|auto].
+  - cbn [inspect_file repaired q_nil_after_open] in H. rewrite seq_none in H. cbn [snd] in H.
+    destruct (IH s H) as [->|[p [Hin [Hr Hs]]]]; [now left|]. right. exists p. split; [now right|auto].
 Qed.
 
 Lemma parse_flags_rest : forall args r v r' v' rest,
@@ -671,7 +776,10 @@ Qed.
 (* an entry that is not a regular file, a link to one, or a directory contributes nothing and
    takes nothing away: the scan of a listing with such an entry reports what it reports without it *)
 Definition bad_entry (n : node) : bool :=
-  match n with LinkDir _ _ | LinkNone _ | Fifo _ | Sock _ => true | _ => false end.
+  match n with
+  | Dir _ _ => false
+  | _ => match stat n with SReg _ => false | _ => true end
+  end.
 
 Lemma flat_map_insert_by_nil : forall {A B} (g : A -> list B) k v (l : list (bytes * A)),
   g v = [] -> flat_map g (map snd (insert_by k v l)) = flat_map g (map snd l).
@@ -686,8 +794,21 @@ Lemma bad_entry_changes_nothing : forall b ch d, bad_entry b = true ->
 Proof.
   intros b ch d Hb. unfold dfs_sorted_regular_files, files_in, sort_listing.
   cbn [map sort_by]. apply flat_map_insert_by_nil.
-  destruct b; try discriminate; reflexivity.
+  destruct b as [| | | | | | |? t|]; try destruct t; try discriminate; reflexivity.
 Qed.
+
+(* the enumeration, entry by entry: a directory is descended into; any other entry is listed
+   exactly when what it RESOLVES to (os.Stat, following links) is a regular file *)
+Lemma files_of_by_target : forall n f,
+  files_of n f =
+  match n with
+  | Dir name ch => flat_map (fun c => files_of c (path_join f name)) ch
+  | _ => match stat n with
+         | SReg c => [(path_join f (node_name n), c)]
+         | _ => []
+         end
+  end.
+Proof. intros n f. destruct n as [| | | | | | |? t|]; try destruct t; reflexivity. Qed.
 
 (* ---------- the code before the repairs, and the depth limit: witnesses ---------- *)
 Definition witness_listing (bad : node) : list node :=
@@ -712,6 +833,20 @@ Lemma repaired_on_witnesses : forall bad, In bad [LinkNone (bs "m"); Sock (bs "m
   main_run repaired (witness_listing bad) [bs "-r"; bs "d"] []
   = ([Report (bs "d/a") (bs "x"); LogLine (bs "d/m"); Report (bs "d/z") (bs "y")], Exit 0).
 Proof. intros bad [<-|[<-|[<-|[<-|[]]]]]; vm_compute; reflexivity. Qed.
+
+(* links whose resolved target is not a regular file, and unreadable files: skipped, the entry
+   after them is reported; the code before the repairs opened whatever a link led to *)
+Lemma repaired_on_link_witnesses : forall t,
+  main_run repaired (witness_listing (LinkOther (bs "m") t)) [bs "-r"; bs "d"] []
+  = ([Report (bs "d/a") (bs "x"); LogLine (bs "d/m"); Report (bs "d/z") (bs "y")], Exit 0) /\
+  main_run repaired (witness_listing (NoPerm (bs "m"))) [bs "-r"; bs "d"] []
+  = ([Report (bs "d/a") (bs "x"); LogLine (bs "d/m"); Report (bs "d/z") (bs "y")], Exit 0).
+Proof. intros t. split; [destruct t|]; vm_compute; reflexivity. Qed.
+
+Lemma pinned_link_to_fifo_blocks :
+  main_run pinned (witness_listing (LinkOther (bs "m") OFifo)) [bs "-r"; bs "d"] []
+  = ([Report (bs "d/a") (bs "x")], Blocked (bs "d/m")).
+Proof. vm_compute. reflexivity. Qed.
 
 Fixpoint chain_of (k : nat) (bottom : list node) : list node :=
   match k with
@@ -916,7 +1051,7 @@ Qed.
 Lemma tree_ok_children : forall n ch, tree_ok n = true -> stat n = SDir ch ->
   names_distinct (map node_name ch) = true /\ forallb tree_ok ch = true.
 Proof.
-  intros n ch Hok Hs. destruct n; cbn in Hs; try discriminate; inversion Hs; subst;
+  intros n ch Hok Hs. destruct n as [| | | | | | |? t|]; try destruct t; cbn in Hs; try discriminate; inversion Hs; subst;
     cbn [tree_ok] in Hok; apply andb_prop in Hok as [_ H]; now apply andb_prop in H.
 Qed.
 
